@@ -68,6 +68,10 @@ pub enum Op {
     CollectFees { pos: u8, v2: bool },
     CollectProtocol { v2: bool },
     Clock(i64),
+    /// advance the cluster epoch (Token-2022 transfer-fee schedules switch on epochs)
+    Epoch(u64),
+    /// Token-2022 `SetTransferFee` on the pool's mint A / B by the fee-config authority: takes effect two epochs later
+    SetTransferFee { a: bool, bps: u16, max: u64 },
     SetFeeRate(u16),
     SetProtocolFeeRate(u16),
     CollectReward { pos: u8, index: u8, v2: bool },
@@ -216,7 +220,7 @@ pub fn build(l: &Ledger, w: &StdWorld, op: &Op) -> Option<Instruction> {
         )),
         Op::SetFeeRate(r) => Some(world::ix_set_fee_rate(&w.pool, w.cfg.fee_authority, *r)),
         Op::SetProtocolFeeRate(r) => Some(world::ix_set_protocol_fee_rate(&w.pool, w.cfg.fee_authority, *r)),
-        Op::Clock(_) => None,
+        Op::Clock(_) | Op::Epoch(_) | Op::SetTransferFee { .. } => None,
         Op::CollectReward { .. } | Op::SetEmissions { .. } => None, // built by the reward world (C11)
     }
 }
@@ -244,6 +248,23 @@ pub fn apply(l: &Ledger, w: &StdWorld, op: &Op) -> Stepped {
         n.unix_ts += dt;
         return Stepped { ledger: n, outcome: Outcome::default(), trace: vec![], ix: None };
     }
+    if let Op::Epoch(k) = op {
+        n.epoch += k;
+        return Stepped { ledger: n, outcome: Outcome::default(), trace: vec![], ix: None };
+    }
+    if let Op::SetTransferFee { a, bps, max } = op {
+        let (mint, prog) = if *a { (w.pool.mint_a, w.pool.prog_a) } else { (w.pool.mint_b, w.pool.prog_b) };
+        if prog != world::T22 {
+            return Stepped { ledger: n, outcome: Outcome { result: Some(svm::ExecError::Runtime("n/a".into())), ..Default::default() }, trace: vec![], ix: None };
+        }
+        let auth = world::mint_authority();
+        let ix = spl_token_2022::extension::transfer_fee::instruction::set_transfer_fee(&world::T22, &mint, &auth, &[], *bps, *max).unwrap();
+        let outcome = match svm::process_builtin(&mut n, &ix) {
+            Ok(_) => Outcome::default(),
+            Err(m) => Outcome { result: Some(svm::ExecError::Runtime(m)), ..Default::default() },
+        };
+        return Stepped { ledger: if outcome.result.is_none() { n } else { l.clone() }, outcome, trace: vec![], ix: Some(ix) };
+    }
     let _ = whirlpool::verif_hooks::take_swap_trace();
     match build(l, w, op) {
         None => Stepped { ledger: n, outcome: Outcome { result: Some(svm::ExecError::Runtime("n/a".into())), ..Default::default() }, trace: vec![], ix: None },
@@ -257,7 +278,7 @@ pub fn apply(l: &Ledger, w: &StdWorld, op: &Op) -> Stepped {
 
 /// Accounts whose bytes make up the property-relevant pool state (graph-mode fingerprint).
 pub fn core_keys(l: &Ledger, w: &StdWorld) -> Vec<solana_program::pubkey::Pubkey> {
-    let mut k = vec![w.pool.addr, w.pool.vault_a, w.pool.vault_b, w.pool.oracle];
+    let mut k = vec![w.pool.addr, w.pool.vault_a, w.pool.vault_b, w.pool.oracle, w.pool.mint_a, w.pool.mint_b];
     for p in &w.positions {
         k.push(p.addr);
     }
